@@ -111,6 +111,28 @@ Theorem C17_collision_callback : forall cfg st e f,
 Proof. exact step_collision_callback. Qed.
 Print Assumptions C17_collision_callback.
 
+(* Commands.Nick sends the requested nickname verbatim.  For every client state - in
+   particular whatever NICKLEN / MAXNICKLEN (or anything else) the server announced in 005,
+   which handleISUPPORT stores in state.serverOptions (ps_opts) - the event handed to
+   Client.Send is NICK with exactly the requested name; and for a wire-valid name the bytes on
+   the socket read back as NICK with that name.  All collision theorems above quantify over
+   every state, hence over every announced NICKLEN: the proposal base ++ k underscores (or the
+   callback's value) is what is sent even when it is longer than NICKLEN - cutting it would
+   re-propose a refused nickname (a nickname of NICKLEN bytes plus "_" cut back to itself). *)
+Theorem C17_nick_sent_verbatim : forall st name,
+  commands_nick st name = cmd_nick name /\
+  (wire_valid name = true ->
+   parse_event (event_bytes (wevent_of (commands_nick st name))) =
+     Ok (Some (mkWEvent None None s_NICK [name]))).
+Proof. exact nick_wire_verbatim. Qed.
+Print Assumptions C17_nick_sent_verbatim.
+
+(* 005 moves neither the nickname nor writes anything *)
+Theorem C17_isupport_keeps_nick : forall cfg st src params st' outs,
+  pn_step cfg st (mkEvent s_005 src params) = Ok (st', outs) -> ps_nick st' = ps_nick st /\ outs = [].
+Proof. exact step_isupport_keeps_nick. Qed.
+Print Assumptions C17_isupport_keeps_nick.
+
 (* every nickname by IsValidNick (Config.Nick is one) satisfies the hypothesis *)
 Theorem C17_valid_nick_is_nick_like : forall n, is_valid_nick n = true -> nick_like n = true.
 Proof. exact valid_nick_is_nick_like. Qed.
